@@ -178,7 +178,7 @@ func (s *shrinker) evalBatch(cands []map[string]interface{}) (int, candResult) {
 			}
 			rs := s.rc.evalCandidates(s.ph, raws, s.class)
 			for i, r := range rs {
-				if r.Class == s.class {
+				if sameClass(r.Class, s.class) {
 					hits[p] = hit{lo + i, r}
 					return
 				}
@@ -234,7 +234,7 @@ func (rc *runCtx) evalCandidates(ph phase, raws []json.RawMessage, want string) 
 				out[start+i] = r
 			}
 			progressed = i + 1
-			if want != "" && r.Class == want {
+			if want != "" && sameClass(r.Class, want) {
 				return out
 			}
 		}
@@ -254,7 +254,7 @@ func (rc *runCtx) evalCandidates(ph phase, raws []json.RawMessage, want string) 
 			c, m := crashClass(o)
 			out[idx] = candResult{Ran: true, Class: c, Message: m}
 		}
-		if want != "" && out[idx].Class == want {
+		if want != "" && sameClass(out[idx].Class, want) {
 			return out
 		}
 		start = idx + 1
